@@ -159,6 +159,8 @@ package codegen
 // the closure never assigns the shared slice variable (which its siblings read concurrently), only its own slot.
 //@   replay listElementPanic.go.tmpl
 //@   ensures panicked ==> ret[i] == graphql.Null
+// C01 list order: element i of the result is written by the closure of element i, at position i
+//@   at `assign ret[*]` requires idx == i
 //@   ensures ret == old(ret)
 // NonNull element type ([T!]): a null element makes the whole list null.
 //@ family listnn [C01]
